@@ -108,4 +108,31 @@ theorem C17_token_static (off : Nat) (t : AToken) (e : AEdge) :
   · rintro ⟨i, j, b, hm, he⟩
     exact ⟨(i, j, b), hm, by simpa using he⟩
 
+/-- **C17 (no stochastic / termination edge is missing)**: without a transition list, every compatible descriptor of positive
+weight is reached from every repeat-unit descriptor: by a stochastic edge when it sits on a repeat unit, by a termination edge
+when it sits on an end group -/
+theorem C17_stochastic_edges_complete (ds : List ADesc) (g o : ADesc) (hg : g ∈ ds) (ho : o ∈ ds) (hrep : g.isRepeat = true)
+    (hnone : g.d.trans = none) (hc : isCompatible g.d o.d = true) (hw : 0 < o.d.weight) :
+    (if o.isRepeat then ({ src := g.off + g.d.atom, dst := o.off + o.d.atom, bond := bondNat g.d.order, stochastic := o.d.weight } : AEdge)
+     else { src := g.off + g.d.atom, dst := o.off + o.d.atom, bond := bondNat g.d.order, termination := o.d.weight }) ∈ stochasticEdges ds := by
+  unfold stochasticEdges
+  rw [List.mem_flatMap]
+  refine ⟨g, List.mem_filter.2 ⟨hg, hrep⟩, ?_⟩
+  simp only [hnone]
+  rw [List.mem_map]
+  exact ⟨o, List.mem_filter.2 ⟨ho, by simp [hc, hw]⟩, rfl⟩
+
+/-- **C17 (no transition edge is missing)**: between consecutive elements, every pair of compatible repeat-unit (or plain token)
+descriptors admitted by the terminals in between is joined -/
+theorem C17_transition_edges_complete (lhs rhs : AElem) (offL offR : Nat) (a b : ADesc)
+    (ha : a ∈ elemDescsA offL lhs) (hb : b ∈ elemDescsA offR rhs) (hc : isCompatible a.d b.d = true)
+    (hl : admitL rhs b.d = true) (hr : admitR lhs a.d = true) (hra : a.isRepeat = true) (hrb : b.isRepeat = true) :
+    ({ src := a.off + a.d.atom, dst := b.off + b.d.atom, bond := bondNat a.d.order, transition := b.d.weight } : AEdge) ∈
+      transitionEdges lhs rhs offL offR := by
+  unfold transitionEdges
+  rw [List.mem_flatMap]
+  refine ⟨a, ha, ?_⟩
+  rw [List.mem_filterMap]
+  exact ⟨b, hb, by simp [hc, hl, hr, hra, hrb]⟩
+
 end GBS
